@@ -24,7 +24,9 @@ CONFIG = {
 }
 
 DIFF = [(None, 0), (0, 1), (1, 2), (True, 1), (False, 0), ('1', 1), ([1, 2], [2, 1]), ({'a': 1}, {'a': 2}),
-        ('v1', 'v2'), (None, False), (1.5, 1), ([], {}), ([1], [[1]]), ('', None), ({'a': None}, {})]
+        ('v1', 'v2'), (None, False), (1.5, 1), ([], {}), ([1], [[1]]), ('', None), ({'a': None}, {}),
+        ({'a': None}, {'b': None}), ([], None), ({}, None), ('', False), ({'a': 1}, {'a': 1, 'b': None}), (0.0, None),
+        ([None], []), ('0', 0), ({'': 1}, {}), ([[]], [])]
 SAME = [(1, 1.0), ({'a': 1, 'b': 2}, {'b': 2, 'a': 1}), ([1, 2], (1, 2)), (0, -0.0), ('v', 'v'),
         ({'a': [1, {'b': 2.0}]}, {'a': (1, {'b': 2})}), (2 ** 53, float(2 ** 53)), (None, None)]
 KINDS = {'result', 'tree', 'extra_invocation', 'missing_invocation', 'reused_output_rewritten'}
